@@ -1395,6 +1395,17 @@ def run(ctx):
                       'oracle': 'closed-form ternary backend, phases differing in interfacial energy / molar volume / shape: every quantity handed to the backend for a phase is that phase\'s own, and every listing order gives the same time grid and per-phase histories'}, msg)
     hits_r = hits_r + hits_t
     ctx.notes['timing']['ternary_runs'] = round(time.time() - t0, 1)
+    t0 = time.time()
+    hits_su = explore_setup(ctx, [c['input'] for c in corpus_raw('setup')] + setup_configs(quick))
+    seen = set()
+    for (cfg, clause, cls, msg) in hits_su:
+        if (clause, cls) in seen:
+            continue
+        seen.add((clause, cls))
+        ctx.violation(clause, {'site': 'PrecipitateModel.setup', 'cls': cls}, {'kind': 'setup', 'input': cfg, 'observed': msg,
+                      'oracle': 'every per-phase quantity the set-up model holds (aspect ratio function and table, shape factors, strain and Gibbs-Thomson energies, size classes) equals that of a model containing only that phase, wherever the phase is listed'}, msg)
+    hits_r = hits_r + hits_su
+    ctx.notes['timing']['setup_probes'] = round(time.time() - t0, 1)
     if not quick:
         t0 = time.time()
         hs, steps = oracle_real_runs()
@@ -1423,7 +1434,7 @@ def run(ctx):
                           'model and implementation disagree on the %s (%d cases), e.g. %s' % (what, len(dd), d), no_input=True)
     ctx.notes['disagreements'] = {'argsort': len(dis_a), 'step_size_rules': len(dis), 'nucleation_sites': len(dis_s)}
     ctx.notes['oracle_hits'] = {'argsort': len(hits_a), 'labelled_backend': len(hits_f), 'databases': len(hits_db), 'step_size_rules': len(hits),
-                                'nucleation_sites': len(hits_s), 'runs': len(hits_r), 'profiles': len(hits_p), 'stub_diffusion': len(hits_sd)}
+                                'nucleation_sites': len(hits_s), 'runs': len(hits_r), 'profiles': len(hits_p), 'stub_diffusion': len(hits_sd), 'setup_probes': len(hits_su)}
     for t in failed:
         ctx.violation(t, {'site': 'coq/C11/Properties.v', 'cls': 'proof'},
                       {'broken': {'theorem': t, 'file': 'coq/C11/Properties.v'}},
@@ -1477,6 +1488,8 @@ def replay(ctx, obj):
         hits = oracle_profile(unhx(obj['input']))
     elif kind == 'sdiff':
         hits = oracle_stub_diffusion(obj['input'])
+    elif kind == 'setup':
+        hits, _ = oracle_setup(obj['input'])
     elif kind == 'trun':
         hits, info = oracle_truns(obj['input'])
         print('replay: steps per order', info['steps'])
@@ -1870,6 +1883,7 @@ class TernaryLog:
         self.last = {}
         self.bad = []
         self.ncalls = 0
+        self.spheres = set()
 
     def __getattr__(self, k):
         return getattr(self._inner, k)
@@ -1899,7 +1913,7 @@ class TernaryLog:
                 note('radii', np.asarray(R)[:3].tolist(), self.model.PBM[idx].PSDbounds[:3].tolist())
             elif np.shape(gExtra) != np.shape(g) or not np.allclose(gExtra, g, rtol=1e-12, atol=0):
                 note('Gibbs-Thomson energies', np.asarray(gExtra, dtype=float)[:3].tolist(), np.asarray(g)[:3].tolist())
-            if TPH[ph]['shape'] is None and not np.allclose(gExtra, 2 * TPH[ph]['gamma'] * pp.volume.Vm / np.asarray(R), rtol=1e-12, atol=0):
+            if ph in getattr(self, 'spheres', ()) and not np.allclose(gExtra, 2 * TPH[ph]['gamma'] * pp.volume.Vm / np.asarray(R), rtol=1e-12, atol=0):
                 note('Gibbs-Thomson energies (sphere: 2 gamma Vm / R)', np.asarray(gExtra, dtype=float)[:3].tolist(), (2 * TPH[ph]['gamma'] * pp.volume.Vm / np.asarray(R))[:3].tolist())
             if ph in self.last and np.array_equal(self.last[ph][2], np.array(x, dtype=float)):
                 dgm = self.last[ph][0]
@@ -1910,30 +1924,53 @@ class TernaryLog:
         return self._inner.getGrowthAndInterfacialComposition(x, T, dG, R, gExtra, precPhase=precPhase, removeCache=removeCache, searchDir=searchDir)
 
 
-def run_ternary(cfg, order):
+STRAIN = {'needle-calc': dict(shape='needle', c=(108e9, 62e9, 28e9), eig=[0.01, 0.01, 0.002], calc=True),
+          'plate-calc': dict(shape='plate', c=(120e9, 70e9, 35e9), eig=[0.002, 0.002, 0.012], calc=True),
+          'needle-fixed': dict(shape='needle', c=(108e9, 62e9, 28e9), eig=[0.008, 0.008, 0.001], calc=False, ratio=1.5)}
+
+
+def build_ternary(cfg, ph):
+    """PrecipitateModel on the closed-form ternary backend with the phases `ph` (a sub-list of cfg['phases'] in any
+    order); cfg['strain'] = {phase: key of STRAIN} gives a phase an elastic strain energy, optionally with the aspect
+    ratio calculated from it"""
     import c03_runs
-    from kawin.precipitation import PrecipitateModel, VolumeParameter
+    from kawin.precipitation import PrecipitateModel, VolumeParameter, StrainEnergy
+    m = PrecipitateModel(phases=list(ph), elements=['B', 'C'])
+    nb = cfg.get('bins', (75, 50, 100))
+    m.setPBMParameters(cMin=1e-10, cMax=1e-8, bins=nb[0], minBins=nb[1], maxBins=nb[2])
+    m.setInitialComposition(list(cfg.get('x0', [0.02, 0.02])))
+    m.setTemperature(cfg.get('T', 720.))
+    a = 0.4e-9
+    m.setVolumeAlpha(a ** 3, VolumeParameter.ATOMIC_VOLUME, 4)
+    for p in ph:
+        m.setInterfacialEnergy(TPH[p]['gamma'], phase=p)
+        m.setVolumeBeta(a ** 3 / TPH[p]['vratio'], VolumeParameter.ATOMIC_VOLUME, 4, phase=p)
+        m.setNucleationSite('dislocations', phase=p)
+        st = (cfg.get('strain') or {}).get(p)
+        if st is not None:
+            st = STRAIN[st]
+            m.setPrecipitateShape(st['shape'], phase=p, ratio=st.get('ratio', 1))
+            se = StrainEnergy()
+            se.setElasticConstants(*st['c'])
+            se.setEigenstrain(list(st['eig']))
+            m.setStrainEnergy(se, phase=p, calculateAspectRatio=st['calc'])
+        elif TPH[p]['shape'] is not None:
+            m.setPrecipitateShape(TPH[p]['shape'][0], phase=p, ratio=TPH[p]['shape'][1])
+    m.setNucleationDensity(grainSize=1, dislocationDensity=1e15)
+    if cfg.get('constraints'):
+        m.setConstraints(**cfg['constraints'])
+    log = TernaryLog(c03_runs.StubTernary(list(ph)))
+    log.spheres = set(p for p in ph if TPH[p]['shape'] is None and p not in (cfg.get('strain') or {}))
+    m.setThermodynamics(log)
+    log.model = m
+    return m, log
+
+
+def run_ternary(cfg, order):
     from kawin.solver import SolverType
     ph = [cfg['phases'][i] for i in order]
     with quiet():
-        m = PrecipitateModel(phases=ph, elements=['B', 'C'])
-        m.setPBMParameters(cMin=1e-10, cMax=1e-8, bins=75, minBins=50, maxBins=100)
-        m.setInitialComposition(list(cfg.get('x0', [0.02, 0.02])))
-        m.setTemperature(cfg.get('T', 720.))
-        a = 0.4e-9
-        m.setVolumeAlpha(a ** 3, VolumeParameter.ATOMIC_VOLUME, 4)
-        for p in ph:
-            m.setInterfacialEnergy(TPH[p]['gamma'], phase=p)
-            m.setVolumeBeta(a ** 3 / TPH[p]['vratio'], VolumeParameter.ATOMIC_VOLUME, 4, phase=p)
-            m.setNucleationSite('dislocations', phase=p)
-            if TPH[p]['shape'] is not None:
-                m.setPrecipitateShape(TPH[p]['shape'][0], phase=p, ratio=TPH[p]['shape'][1])
-        m.setNucleationDensity(grainSize=1, dislocationDensity=1e15)
-        if cfg.get('constraints'):
-            m.setConstraints(**cfg['constraints'])
-        log = TernaryLog(c03_runs.StubTernary(ph))
-        m.setThermodynamics(log)
-        log.model = m
+        m, log = build_ternary(cfg, ph)
         m.solve(cfg['tf'], solverType=SolverType.RK4 if cfg.get('solver') == 'RK4' else SolverType.EXPLICITEULER, verbose=False)
     n = m.pData.n
     out = {'n': int(n), 'time': m.pData.time[:n + 1].copy(), 'temperature': m.pData.temperature[:n + 1].copy(), 'phase': {},
@@ -1988,12 +2025,93 @@ def oracle_truns(cfg):
     return hits, info
 
 
+# ---- per-phase quantities derived while the model is set up ------------------------------------------------
+PROBE_R = np.array([3e-10, 6e-10, 1e-9, 2e-9, 4e-9, 8e-9])
+
+
+def phase_probe(m, j):
+    """what the model has derived for the phase at position j once it is set up (functions are probed on fixed radii)"""
+    pp = m.precipitateParameters[j]
+    nm = str(m.phases[j])
+    sf = pp.shapeFactor
+    return {'aspect ratio function (on probe radii)': np.atleast_1d(sf.aspectRatio(PROBE_R)) * np.ones(len(PROBE_R)),
+            'equilibrium aspect ratio table': np.atleast_1d(m.eqAspectRatio[j]) * np.ones(len(m.PBM[j].PSDbounds)),
+            'size class bounds': m.PBM[j].PSDbounds,
+            'thermodynamic shape factor (on probe radii)': np.atleast_1d(sf.thermoFactor(PROBE_R)) * np.ones(len(PROBE_R)),
+            'kinetic shape factor (on probe radii)': np.atleast_1d(sf.kineticFactor(PROBE_R)) * np.ones(len(PROBE_R)),
+            'equivalent radius factor (on probe radii)': np.atleast_1d(sf.eqRadiusFactor(PROBE_R)) * np.ones(len(PROBE_R)),
+            'strain energy (on probe radii)': np.atleast_1d(pp.computeStrainEnergyFromR(PROBE_R)) * np.ones(len(PROBE_R)),
+            'Gibbs-Thomson energy (on probe radii)': np.atleast_1d(m.particleGibbs(PROBE_R, phase=nm)),
+            'Gibbs-Thomson energy (size classes)': np.atleast_1d(m.particleGibbs(phase=nm))}
+
+
+def setup_probe(cfg, ph):
+    with quiet():
+        m, _ = build_ternary(cfg, ph)
+        m.setup()
+        return {str(nm): {k: np.array(v, dtype=float).copy() for k, v in phase_probe(m, j).items()} for j, nm in enumerate(ph)}
+
+
+def oracle_setup(cfg):
+    """property text: per-phase results do not depend on where the phase is listed.  Everything the set-up model holds
+    for a phase (functions probed on fixed radii) must be what a model containing ONLY that phase holds, for every
+    listing order"""
+    names = list(cfg['phases'])
+    k = len(names)
+    ref = {nm: setup_probe(cfg, [nm])[nm] for nm in names}
+    orders = [tuple(o) for o in (cfg.get('orders') or itertools.permutations(range(k)))]
+    hits = []
+    for od in orders:
+        ph = [names[i] for i in od]
+        got = setup_probe(cfg, ph)
+        for nm in names:
+            for q, v in got[nm].items():
+                r = ref[nm][q]
+                if v.shape != r.shape or not np.allclose(v, r, rtol=1e-12, atol=0, equal_nan=True):
+                    hits.append(('phase_setup_local', q.split(' (')[0],
+                                 '%s of phase %s listed at position %d of %s is %s; a model with that phase alone has %s'
+                                 % (q, nm, ph.index(nm), ph, np.array(v).ravel()[:6].tolist(), np.array(r).ravel()[:6].tolist())))
+                    break
+            if hits:
+                break
+        if hits:
+            break
+    return hits, len(orders) + k
+
+
+def setup_configs(quick):
+    small = (30, 20, 40)
+    cfgs = [dict(name='needle with calculated aspect ratio + sphere', phases=['T1', 'T2'], strain={'T1': 'needle-calc'}, bins=small),
+            dict(name='calculated needle, fixed needle with strain energy, calculated plate', phases=['T1', 'T2', 'T3'],
+                 strain={'T1': 'needle-calc', 'T2': 'needle-fixed', 'T3': 'plate-calc'}, bins=small, orders=[[0, 1, 2], [1, 2, 0], [2, 0, 1]])]
+    if not quick:
+        cfgs += [dict(name='three phases, all orders', phases=['T1', 'T2', 'T3'], strain={'T1': 'needle-calc', 'T3': 'plate-calc'}),
+                 dict(name='two calculated phases', phases=['T3', 'T1'], strain={'T1': 'plate-calc', 'T3': 'needle-calc'})]
+    return cfgs
+
+
+def explore_setup(ctx, cfgs):
+    hits = []
+    for cfg in cfgs:
+        t0 = time.time()
+        hs, nmodels = oracle_setup(cfg)
+        ctx.count({'setup': cfg}, True)
+        ctx.notes.setdefault('setup_probes', []).append({'config': cfg['name'], 'models_set_up': nmodels, 'wall_s': round(time.time() - t0, 1)})
+        for h in hs:
+            hits.append((cfg,) + h)
+    return hits
+
+
 def trun_configs(quick):
     cfgs = [dict(name='ternary, two phases differing in gamma / Vm / shape', phases=['T1', 'T2'], tf=30.),
             dict(name='ternary, three phases', phases=['T1', 'T2', 'T3'], tf=4.),
-            dict(name='ternary, two phases, RK4', phases=['T3', 'T2'], tf=3., solver='RK4')]
+            dict(name='ternary, two phases, RK4', phases=['T3', 'T2'], tf=3., solver='RK4'),
+            dict(name='ternary, needle with aspect ratio calculated from its strain energy + sphere', phases=['T1', 'T2'],
+                 strain={'T1': 'needle-calc'}, bins=(40, 30, 60), tf=0.06)]
     if not quick:
-        cfgs += [dict(name='ternary, two phases, long', phases=['T1', 'T2'], tf=500.),
+        cfgs += [dict(name='ternary, calculated needle + sphere, longer', phases=['T1', 'T2'], strain={'T1': 'needle-calc'}, tf=3.),
+                 dict(name='ternary, calculated needle + calculated plate + sphere', phases=['T1', 'T3', 'T2'],
+                      strain={'T1': 'needle-calc', 'T3': 'plate-calc'}, bins=(40, 30, 60), tf=0.2, orders=[[0, 1, 2], [2, 1, 0], [1, 2, 0]]),dict(name='ternary, two phases, long', phases=['T1', 'T2'], tf=500.),
                  dict(name='ternary, T1+T3, 680 K', phases=['T1', 'T3'], tf=100., T=680.),
                  dict(name='ternary, three phases, volume rule', phases=['T1', 'T2', 'T3'], tf=2., constraints=VOLCONS)]
     return cfgs
